@@ -20,6 +20,8 @@ struct Out {
     keepl: Vec<RawListener>,
     refused_after: Vec<(String, bool)>,
     ipc_paths: Vec<String>,
+    late_listener_at: Option<String>,
+    ghost_connection: bool,
 }
 
 fn lifecycle(ctx: &mut Ctx) {
@@ -52,6 +54,11 @@ fn lifecycle(ctx: &mut Ctx) {
     // some time before the teardown an accept() call on each bound endpoint failed (descriptor
     // shortage, an aborted connection, a signal): long over, and no reason to leave anything behind
     let accept_fault: Option<std::io::ErrorKind> = if ctx.idx >= 432 && !fail_unlink && ctx.plan(4) == 0 { Some([std::io::ErrorKind::Other, std::io::ErrorKind::ConnectionAborted, std::io::ErrorKind::OutOfMemory, std::io::ErrorKind::Interrupted][ctx.plan(4) as usize]) } else { None };
+    // 'connected_out' histories beyond the grid: the connect call may be abandoned by its caller
+    // before it completes (a timeout, select!) - against a listener that accepts and then says
+    // nothing (1), or against a port where nobody listens yet, so that the call is in its retry
+    // loop (2). Whatever the call had started must go with the socket.
+    let abandon_connect = if ctx.idx >= 432 && prefix == 2 { ctx.plan(3) } else { 0 };
     let backlog = ctx.idx >= 432 && matches!(kind, Kind::Pub | Kind::Xpub) && matches!(prefix, 1 | 3) && ctx.plan_bool();
     rt::task::spawn_local("app", async move {
         let mut sock = AnySock::new(kind, None);
@@ -121,7 +128,26 @@ fn lifecycle(ctx: &mut Ctx) {
             }
             rt::task::idle().await;
         }
-        if prefix == 2 {
+        if prefix == 2 && abandon_connect == 1 {
+            if let Ok((l, lep)) = RawListener::bind("tcp://127.0.0.1:0") {
+                let o3 = o2.clone();
+                rt::task::spawn_local("silent-acceptor", async move {
+                    if let Ok(p) = l.accept().await {
+                        o3.borrow_mut().conns.push((p.conn.clone(), 0, "connect_abandoned"));
+                        o3.borrow_mut().keep.push(p);
+                    }
+                    o3.borrow_mut().keepl.push(l);
+                });
+                // given up once the world is quiet: the handshake never completes
+                let _ = rt::future::or_idle(sock.connect(&lep)).await;
+                rt::count("probe_connect_abandoned_in_its_handshake");
+            }
+        } else if prefix == 2 && abandon_connect == 2 {
+            // nobody listens on that port: the call retries; it is given up after a few polls
+            let _ = rt::future::poll_budget(sock.connect("tcp://127.0.0.1:23917"), 3).await;
+            o2.borrow_mut().late_listener_at = Some("tcp://127.0.0.1:23917".to_string());
+            rt::count("probe_connect_abandoned_in_its_retry_loop");
+        } else if prefix == 2 {
             if let Ok((l, lep)) = RawListener::bind("tcp://127.0.0.1:0") {
                 let o3 = o2.clone();
                 let acc = rt::task::spawn_local("acceptor", async move {
@@ -239,6 +265,20 @@ fn lifecycle(ctx: &mut Ctx) {
                 o2.borrow_mut().refused_after.push((e, refused));
             }
         }
+        // a listener that appears, after the socket is gone, where an abandoned connect had been
+        // retrying: nobody may connect to it
+        let late = o2.borrow().late_listener_at.clone();
+        if let Some(lep) = late {
+            if let Ok((l, _)) = RawListener::bind(&lep) {
+                rt::task::sleep(std::time::Duration::from_secs(30)).await;
+                rt::task::idle().await;
+                if let Some(Ok(p)) = rt::future::or_idle(l.accept()).await {
+                    o2.borrow_mut().ghost_connection = true;
+                    o2.borrow_mut().keep.push(p);
+                }
+                o2.borrow_mut().keepl.push(l);
+            }
+        }
         o2.borrow_mut().done = true;
         world::park().await;
         drop(peers);
@@ -273,6 +313,9 @@ fn lifecycle(ctx: &mut Ctx) {
         // (with an accept() failure in the history, close() may or may not mention it)
         if !fail_unlink && accept_fault.is_none() && o.close_errors > 0 {
             ctx.violation(&key("close_reported_spurious_error"), format!("{tag}: close() returned {} errors although nothing failed", o.close_errors));
+        }
+        if o.ghost_connection {
+            ctx.violation(&key("connects_after_teardown"), format!("{tag}: a connect call had been retrying against a port nobody listened on and was abandoned by its caller; after the socket was {} a listener appeared there and the socket connected to it", if use_close { "closed" } else { "dropped" }));
         }
         for (c, side, role) in &o.conns {
             if !c.released(*side) {
